@@ -319,6 +319,14 @@ example : (rewrite (tableRewrite exSw) 3 ((effective exActs).take 3) exFrame).pa
   refine ⟨rfl, ?_⟩
   decide +kernel
 
+/-- the carry fold behind every one of these checksums runs *until no carry is left*: the specification's `rfc1071` folds with
+`foldAll` (C14 `rfc1071_fold_spec`: `foldAll s = if s < 65536 then s else foldAll (s / 65536 + s % 65536)`), and the code's two
+folding lines agree with it (C14 `checksum_rfc1071`).  One fold is not enough — for the words ffff ffff 0001 the first fold
+leaves 0x10000, and a routine that stops there gets the checksum wrong: -/
+example : (0x1ffff / 65536 + 0x1ffff % 65536 = 0x10000) ∧ foldAll 0x1ffff = 1 ∧ fold2 0x1ffff = 1 ∧
+    checksum [0xff, 0xff, 0xff, 0xff, 0x01, 0x00] 0 none = rfc1071 [0xff, 0xff, 0xff, 0xff, 0x01, 0x00] ∧
+    rfc1071 [0xff, 0xff, 0xff, 0xff, 0x00, 0x01] = 0xfffe := by decide
+
 /-- `Valid` is not vacuous: on the example it is exactly the receiver's checks of an IPv4/UDP datagram (`u` = the UDP
 datagram inside, 11 bytes) -/
 example : Valid none exFrame.pay ↔
